@@ -1367,8 +1367,8 @@ def generate(ctx: Ctx, scale: int, rng, thorough=False):
                 ctx.case(("genexp", ta), sample=c2)
                 eval_case(ctx, c2)
                 # $ORIGIN-relative versus absolute: the same expansion with every name written out under the zone origin
-                if osw in ("sub", "sub2", "back") and rng.chance(1, 2):
-                    cur = {"sub": "hosts." + o_txt, "sub2": "b.a." + o_txt, "back": o_txt}[osw]
+                if osw in ("sub", "sub2", "back", "subrel") and rng.chance(1, 2):
+                    cur = {"sub": "hosts." + o_txt, "sub2": "b.a." + o_txt, "back": o_txt, "subrel": "x." + o_txt}[osw]
                     abs_lines = absolutize_expansion(exp, cur)
                     if abs_lines is not None:
                         tcabs = pre.split("$ORIGIN")[0] + "\n".join(abs_lines) + "\n" + (post.replace("after 60 IN PTR tail", f"after.{cur} 60 IN PTR tail.{cur}") if "$ORIGIN" not in post else f"last.{o_txt} 60 IN NS ns1.{o_txt}\n")
@@ -1377,7 +1377,8 @@ def generate(ctx: Ctx, scale: int, rng, thorough=False):
                         ctx.case(("genabs", ta), sample=None)
                         eval_case(ctx, c3)
     # --- "$ORIGIN-relative versus absolute names" for the argument of $ORIGIN itself (RFC 1035 5.1: a relative
-    # domain name in a master file, the $ORIGIN argument included, is completed with the current origin)
+    # domain name in a master file, the $ORIGIN argument included, is completed with the current origin; repaired in
+    # c444c98, witness corpus/C09/relative-origin-directive.json kept as regression case)
     for _ in range(n(24)):
         origin = rng.choice(ORIGINS[:3])
         rel = rng.chance(1, 2)
@@ -1396,6 +1397,13 @@ def generate(ctx: Ctx, scale: int, rng, thorough=False):
              "a": l1(ta).hex(), "b": l1(tb).hex()}
         ctx.case(("relorigin", ta, rel), sample=c)
         eval_case(ctx, c)
+        if rng.chance(1, 3):
+            # no origin at all to complete the relative argument: an error of the library's own, never a zone whose
+            # origin is relative (read correspondence + foreign-exception oracle)
+            c0 = {"kind": "read", "origin": None, "rel": rel, "chk": False,
+                  "text": l1(f"$ORIGIN {lab}\n$TTL 60\n@ IN SOA ns1 hostmaster 1 2 3 4 5\n@ NS ns1\n" + body).hex()}
+            ctx.case(("relorigin-none", lab, body, rel), sample=None)
+            eval_case(ctx, c0)
 
     # --- zones: write then read
     styles = pairwise(rng.fork(3), KNOBS)
